@@ -3,6 +3,7 @@ package workflow
 
 import (
 	"context"
+	"encoding/json"
 	"fmt"
 	"go.flow.arcalot.io/engine/internal/infer"
 	"go.flow.arcalot.io/engine/internal/tablefmt"
@@ -434,9 +435,28 @@ func (l *loopState) onStageComplete(
 
 		// Placing data from the output into the general data structure
 		l.data[WorkflowStepsKey].(map[string]any)[stepID].(map[string]any)[*previousStage] = map[string]any{}
-		l.data[WorkflowStepsKey].(map[string]any)[stepID].(map[string]any)[*previousStage].(map[string]any)[*previousStageOutputID] = *previousStageOutput
+		l.data[WorkflowStepsKey].(map[string]any)[stepID].(map[string]any)[*previousStage].(map[string]any)[*previousStageOutputID] = serializedOutput(*previousStageOutput)
 	}
 	l.notifySteps()
+}
+
+// serializedOutput returns the serialized (map) form of a stage output. Step providers report some
+// engine-generated outputs, such as the crashed and deploy_failed errors, as Go structs, while expressions
+// and output schemas work on serialized data only.
+func serializedOutput(output any) any {
+	value := reflect.ValueOf(output)
+	if !value.IsValid() || value.Kind() != reflect.Struct {
+		return output
+	}
+	encoded, err := json.Marshal(output)
+	if err != nil {
+		return output
+	}
+	var result map[string]any
+	if err := json.Unmarshal(encoded, &result); err != nil {
+		return output
+	}
+	return result
 }
 
 // Marks the outputs of that stage unresolvable.
